@@ -84,6 +84,45 @@ Plan gen_c17(uint64_t seed, int tier)
   };
   for (int ph = 0; ph < phases; ++ph)
   {
+    if (nthreads >= 2 && r.chance(1, 3))
+    {
+      // several threads create the same, not yet existing logger at the same time (between two barriers): all of them
+      // must get the same object; afterwards it is a logger like the others
+      int const slot = nslots++;
+      int64_t const m = r.range(1, (1 << nsinks) - 1);
+      int64_t usable = 0;
+      for (int s2 = 0; s2 < nsinks; ++s2)
+      {
+        if (((m >> s2) & 1) && !dropped[static_cast<size_t>(s2)])
+        {
+          usable |= int64_t{1} << s2;
+        }
+      }
+      if (usable)
+      {
+        int64_t const name = next_name++;
+        int const racers = static_cast<int>(r.range(2, nthreads));
+        for (int t = 0; t < nthreads; ++t)
+        {
+          auto& ops = p.threads[static_cast<size_t>(t)];
+          ops.push_back(Op{OP_BARRIER, barrier, nthreads});
+          if (t < racers)
+          {
+            ops.push_back(Op{OP_CREATE_LOGGER, slot, usable, 0, name});
+            ops.push_back(Op{OP_LOG, slot, 0, 4, static_cast<int64_t>(r.next() >> 8), static_cast<int64_t>(r.below(30)), 0});
+          }
+          ops.push_back(Op{OP_BARRIER, barrier + 1, nthreads});
+        }
+        barrier += 2;
+        valid.push_back(true);
+        mask.push_back(usable);
+        p.cfg["concurrent_creations"] = p.get("concurrent_creations", 0) + 1;
+      }
+      else
+      {
+        --nslots;
+      }
+    }
     std::vector<int> allowed;
     for (int i = 0; i < nslots; ++i)
     {
